@@ -52,21 +52,33 @@ def check(prog, run):
                        "single value wrapped for list types, unknown input-object keys rejected", 18)
 
     # O-null
-    def has_null_guard(f, value_pred):
-        """an `if` whose test (or nesting) combines isinstance(.., NonNullType) with a None / NullValue test and whose body raises"""
-        for n in own_nodes(f.node):
-            if isinstance(n, ast.If):
-                t = ast.unparse(n.test)
-                if "NonNullType" in t:
-                    if value_pred(t) and shapes.raises_unconditionally(n.body):
-                        return True
-                    for m in n.body:
-                        if isinstance(m, ast.If) and value_pred(ast.unparse(m.test)) and shapes.raises_unconditionally(m.body):
-                            return True
-        return False
-    for f, pred, label in ((cv, lambda t: "is None" in t, "variable route (coerce_value)"),
-                           (vfa, lambda t: "NullValue" in t, "literal route (value_from_ast)"),
-                           (evar, lambda t: "is None" in t, "variable inside literal (_extract_variable)")):
+    def has_null_guard(f, null_atom):
+        """path form: with the type NonNull and the value null (and the node not a variable) every execution raises"""
+        def decide(t):
+            tt = t.replace(" ", "")
+            if re.match(r"^isinstance\(\w+,(_ast\.)?Variable\)$", tt):
+                return False
+            if re.match(r"^isinstance\(\w+,NonNullType\)$", tt):
+                return True
+            v = null_atom(tt)
+            if v is not None:
+                return v
+            return None
+        try:
+            _ev, exits = boolx.walk_under(f.node, decide)
+        except ValueError as e:
+            raise AnalysisError("C07.O1: %s: %s" % (f.qualname, e))
+        return bool(exits) and all(kind == "raise" for kind, _st, _env in exits)
+
+    def none_atom(tt):
+        m = re.match(r"^(\w+)isNone$", tt)
+        return True if m and m.group(1) not in ("path", "variables", "node") else None
+
+    def nullvalue_atom(tt):
+        return True if re.match(r"^isinstance\(\w+,(_ast\.)?NullValue\)$", tt) else None
+    for f, pred, label in ((cv, none_atom, "variable route (coerce_value)"),
+                           (vfa, nullvalue_atom, "literal route (value_from_ast)"),
+                           (evar, none_atom, "variable inside literal (_extract_variable)")):
         ok = has_null_guard(f, pred)
         r.instance("O-null %s: %s" % (label, ok))
         if not ok:
